@@ -136,6 +136,13 @@ def vectors(ctx):
                           "truth": [[0, 0], [0, 0]], "kind": "surf" if (5 <= tc0 <= 8 and 5 <= tc1 <= 8) else "air",
                           "hasref": hasref, "r": rng.randrange(-200000, 200000), "s": rng.randrange(-500000, 500000), "dt": 0,
                           "case": ["pair", tc0, tc1, oe0, hasref]})
+    # surface pairs re-decoded with the receiver longitude a few ulps around each flip point of the longitude choice
+    for k in range(ctx.pick(150, 4000)):
+        f0 = gen.set_bits(gen.set_bits(gen.rand_frame_df(rng, 17), 33, 37, rng.randint(5, 8)), 54, 54, 0)
+        f1 = gen.set_bits(gen.set_bits(gen.rand_frame_df(rng, 17), 33, 37, rng.randint(5, 8)), 54, 54, 1)
+        f1 = gen.set_bits(f1, 55, 71, (gen.get_bits(f0, 55, 71) + rng.randrange(-3, 4)) % 131072)      # same latitude zone: a decodable pair
+        V.append({"fn": "adsb.surface_position.edge", "f0": f0, "f1": f1, "t0": 1 + k % 2, "t1": 2 - k % 2,
+                  "r": rng.randrange(-250000, 250000), "s": rng.randrange(-500000, 500000), "case": ["edge", k]})
     # tell() on every surface movement code and every TC19 / TC29 boundary frame
     for mov in range(128):
         f = gen.rand_frame_df(rng, 17)
